@@ -177,6 +177,19 @@ CHECKS["C14"] = dict(
     technique="TLA+ exact combinatorial clipping oracle evaluated by TLC on recorded results of TLC-enumerated and random cases "
               "(trace validation)")
 
+CHECKS["C15"] = dict(
+    level="exploration",
+    text="Similar.tla defines Sim (same type and counts, a bijection between members found by enumerating permutations, closed rings up "
+         "to rotation, everything else position by position) and transcribes the code's greedy matching; TLC checks greedy = "
+         "bijection and symmetry on the whole generated universe. TLC generates pairs (g, mu(g)) for base geometries of all eight "
+         "types under the mutations the property names (permutation, rotation, sub-/super-tolerance perturbation, single-vertex "
+         "displacement, member insertion/deletion, line reversal, type change) and both g.Similar(h) and h.Similar(g) of the real "
+         "code must equal Sim.",
+    design_ref="DESIGN.md section 5, C15",
+    note="Trusted: TLC. Integer coordinates, tolerance 10, members at least 10 tol apart (matching unambiguous).",
+    technique="TLA+ bijection-based similarity oracle + transcribed greedy matching checked by TLC; TLC-generated mutation pairs "
+              "replayed on the code and validated by TLC (trace validation)")
+
 NOT_YET = "check not built yet in this round of work; will be claimed when its specification, replay and trace validation exist"
 NA = {
     "C09": "oracle is proj4js 2.3.12 and closed-form geodesy (real-valued transcendental functions, a JavaScript program that "
